@@ -31,9 +31,14 @@ def strip(v):
     return v
 
 
-def is_seq(v):
+ZERO = ("sqzero",)
+
+
+def is_seq(v, atom_pred=None):
     v = strip(v)
-    return v[0] in ("sqatom", "membytes", "sqempty", "sqcat", "sqslice")
+    if v[0] in ("sqatom", "membytes", "sqempty", "sqcat", "sqslice", "sqfill"):
+        return True
+    return bool(atom_pred and atom_pred(v))
 
 
 def seq_len(v):
@@ -46,7 +51,11 @@ def seq_len(v):
         return ("bin", "Add", seq_len(v[1]), seq_len(v[2]), 64)
     if v[0] == "sqslice":
         hi = v[3] if v[3] is not None else seq_len(v[1])
+        if A.is_int(v[2]) and v[2][1] == 0:
+            return hi
         return ("bin", "Sub", hi, v[2], 64)
+    if v[0] == "sqfill":
+        return v[2]
     return A.W(A.LEN(v), 64)
 
 
@@ -84,13 +93,17 @@ def normal_form(v, sub=None):
     v = strip(v)
     if v[0] == "sqempty":
         return []
-    if v[0] in ("sqatom", "membytes"):
+    if v[0] == "sqfill":
+        if not (A.is_int(v[1]) and v[1][1] == 0):
+            return None
+        return _merge_zero(_drop_empty([(ZERO, list(U.affine_norm(A.INT(0, 64))), list(U.affine_norm(subst(v[2], sub))))]))
+    if v[0] in ("sqatom", "membytes") or v[0] == "field":
         return _drop_empty([(v, list(U.affine_norm(A.INT(0, 64))), list(U.affine_norm(subst(seq_len(v), sub))))])
     if v[0] == "sqcat":
         a, b = normal_form(v[1], sub), normal_form(v[2], sub)
         if a is None or b is None:
             return None
-        return a + b
+        return _merge_zero(a + b)
     if v[0] == "sqslice":
         inner = normal_form(v[1], sub)
         if inner is None:
@@ -103,8 +116,25 @@ def normal_form(v, sub=None):
         atom, L, H = inner[0]
         nlo = aff_add(L, lo)
         nhi = aff_add(L, U.affine_norm(subst(v[3], sub))) if v[3] is not None else H
-        return _drop_empty([(atom, nlo, nhi)])
+        return _merge_zero(_drop_empty([(atom, nlo, nhi)]))
     return None
+
+
+def _merge_zero(segs):
+    """zero segments carry no position: shift each to start at 0 and merge neighbours"""
+    out = []
+    for a, lo, hi in segs:
+        if a == ZERO:
+            ln = aff_add(hi, [{k: -c for k, c in lo[0].items()}, (-lo[1]) % (1 << 64)])
+            if out and out[-1][0] == ZERO:
+                ln = aff_add(out[-1][2], ln)
+                out.pop()
+            if not ln[0] and ln[1] == 0:
+                continue
+            out.append((ZERO, [{}, 0], ln))
+        else:
+            out.append((a, lo, hi))
+    return out
 
 
 def aff_add(a, b):
@@ -139,6 +169,17 @@ def show_aff(a):
     return "".join(parts).lstrip("+")
 
 
+def _position_call(t, depth=0):
+    while t[0] in ("w", "vfield", "deref", "cast") and depth < 8:
+        t = t[1]
+        depth += 1
+    if t[0] == "ret" and isinstance(t[1], str):
+        short = t[1].rsplit("::", 1)[1].split("::<")[0] if "::" in t[1] else t[1]
+        if short in ("position", "rposition"):
+            return short
+    return None
+
+
 def implies_le(path, x, y, upto=None, strict=False, norm=None):
     """does the path establish x <= y (x < y when strict)? a reason, or None. Terms are compared after `norm`; a
     comparison a <= b on the path also discharges x <= y when y - x and b - a are the same affine form (both sides
@@ -154,6 +195,11 @@ def implies_le(path, x, y, upto=None, strict=False, norm=None):
         return "min() with the length"
     if A.is_int(sx) and sx[1] == 0 and not strict:
         return "zero"
+    if strict:
+        # an index found by position()/rposition() over the indexed vector is below its length
+        pos = _position_call(sx)
+        if pos is not None:
+            return "index found by %s()" % pos
     diff = U.affine_norm(("bin", "Sub", ny, nx, 64))
     if not diff[0] and diff[1] < (1 << 63) and (diff[1] > 0 or not strict):
         return "differs by the constant %d" % diff[1]
@@ -191,12 +237,25 @@ def implies_le(path, x, y, upto=None, strict=False, norm=None):
     return None
 
 
+def as_view(a):
+    """a mutable sub-slice view handed out by index_mut (possibly reborrowed)"""
+    for _ in range(3):
+        if a[0] == "sqview":
+            return a
+        if a[0] == "ref" and a[1][0][0] == "D" and not a[1][1]:
+            a = a[1][0][1]
+            continue
+        return None
+    return None
+
+
 class SeqMapPrims:
-    def __init__(self, facts, maps, seq_maps, chain=None):
+    def __init__(self, facts, maps, seq_maps, chain=None, atom_pred=None):
         self.F = facts
         self.maps = set(maps)
         self.seq_maps = set(seq_maps)
         self.chain = chain
+        self.atom_pred = atom_pred
         self.unmodelled = []
 
     # ------------------------------------------------------------------ map helpers
@@ -330,12 +389,28 @@ class SeqMapPrims:
         # ---- byte sequences
         if name.startswith("std::vec::Vec") and short in ("new", "with_capacity") and "u8" in " ".join(t["f"].get("gargs", [])):
             return [(EMPTY, path)]
+        if name == "std::vec::from_elem" and len(args) == 2 and "u8" in " ".join(t["f"].get("gargs", [])):
+            path.events.append(("vec_alloc", args[1], F.site_str(frame.body, t["sp"])))
+            return [(("sqfill", args[0], args[1]), path)]
         if not args:
             return None
         a0 = args[0]
         tgt = a0
+        if short in ("copy_from_slice", "clone_from_slice") and len(args) == 2 and as_view(a0) is not None:
+            _, vloc, lo, hi = as_view(a0)
+            base = strip(I.read_loc(path, vloc))
+            src = strip(I._deref_all(path, args[1]))
+            if not (is_seq(base, self.atom_pred) and is_seq(src, self.atom_pred)):
+                self.unmodelled.append(name)
+                return None
+            path.events.append(("copy", mk_slice(base, lo, hi), src, F.site_str(frame.body, t["sp"]), len(path.conds)))
+            end = ("bin", "Add", lo, seq_len(src), 64)
+            new = ("sqcat", ("sqcat", mk_slice(base, None, lo), src), mk_slice(base, end, None))
+            I.write_loc(path, vloc, new)
+            path.events.append(("seqstore", vloc, new))
+            return [(A.UNIT, path)]
         v0 = I._deref_all(path, a0)
-        if not is_seq(v0):
+        if not is_seq(v0, self.atom_pred):
             if short in ("take",) and name.startswith("std::mem::") and a0[0] == "ref" and is_seq(I.read_loc(path, a0[1])):
                 pass
             else:
@@ -355,6 +430,10 @@ class SeqMapPrims:
                 self.unmodelled.append(name)
                 return None
             path.events.append(("slice", v0, rg, F.site_str(frame.body, t["sp"]), len(path.conds)))
+            if short == "index_mut":
+                vloc = self.loc_of(I, path, tgt)
+                if vloc is not None:
+                    return [(("sqview", vloc, b[0], b[1]), path)]
             return [(mk_slice(v0, b[0], b[1]), path)]
         # mutations through a reference
         loc = self.loc_of(I, path, tgt)
@@ -376,6 +455,17 @@ class SeqMapPrims:
                 return None
             I.write_loc(path, loc, ("sqcat", v0, strip(ov)))
             I.write_loc(path, oloc, EMPTY)
+            return [(A.UNIT, path)]
+        if short == "resize" and len(args) == 3:
+            if not (A.is_int(args[2]) and args[2][1] == 0):
+                self.unmodelled.append(name + " (non-zero fill)")
+                return None
+            ln = seq_len(v0)
+            m = I.minmax(path, "min", args[1], ln, 64, False)
+            new = ("sqcat", mk_slice(v0, None, m), ("sqfill", A.INT(0, 8), ("bin", "Sub", args[1], m, 64)))
+            path.events.append(("vec_alloc", args[1], F.site_str(frame.body, t["sp"])))
+            I.write_loc(path, loc, new)
+            path.events.append(("seqstore", loc, new))
             return [(A.UNIT, path)]
         if short == "truncate" and len(args) == 2:
             n = I.minmax(path, "min", args[1], seq_len(v0), 64, False)
